@@ -18,9 +18,61 @@ CHECKS = [
            'and the exact boundary: a non-finite literal serialises to null and is rejected (json_nonfinite_counterexample; recorded known finding). '
            'Tie: the canonical JSON produced by the crate is compared with the model; value- and text-route round trips are checked bit-exactly on the crate.',
       note=TB + 'serde_json text layer (built with float_roundtrip) and serde derive are trusted; non-finite literals are a recorded known finding (C12-nonfinite-literal).'),
+
+ dict(property_id='C01', design_ref='DESIGN.md 7 C01',
+      technique='Lean 4 proof (Pratt-loop key lemma by induction over the rendering judgement; fuel bound) + parser/scanner correspondence incl. exhaustive token-kind sequences',
+      text='Proved in Lean for every tree and EVERY rendering of it (mutual judgement Bare/Rn/RnList covers minimal, full and any redundant parenthesisation): parse ts = ok e (parse_rendering, parse_renderMin, parse_renderFull); '
+           'everything the parser accepts is source-expressible and re-rendering reproduces it (parse_wf, reparse, reparse_any); renderings are unambiguous (renders_injective). '
+           'Tie: all token-kind sequences of length <=4/<=5 and random longer ones against Compiler::compile_ast; text level against compile. Falsifier: render -> compile -> bit-exact comparison on the crate.',
+      note=TB + 'token texts/layout are the scanner\'s part (C02); the harness renderer is trusted to implement the documented precedence table.'),
+ dict(property_id='C02', design_ref='DESIGN.md 7 C02',
+      technique='Lean 4 proof over a structural scanner model (separator grammar invisibility, n-ary layout theorem, string/keyword/number lemmas) + scanner correspondence incl. exhaustive fragment sequences',
+      text='Proved in Lean: separators (whitespace, // comments, nested { } comments) in front of any input are invisible (scan_sep_invariant), the n-ary layout theorem scan_layout with the exact fusion condition, '
+           'string literals denote exactly their content for every character sequence (scan_string_literal), all ASCII case variants of the 8 keywords (keyword_case), identifiers keep their spelling, '
+           'the four decimal spellings denote str::parse of their text (scan_number). Tie: all fragment sequences <=3/<=4 + random texts; decimal->nearest double by the num stream. Falsifier: metamorphic layout variants on the crate.',
+      note=TB + 'Unicode character classes are Rust std tables dumped into SlacModel/UnicodeTables.lean (theorems hold for every CharClass with the stated ASCII behaviour); '
+           'nearest-double conversion is the exact rational model of Num.lean tied by the num stream.'),
+ dict(property_id='C05', design_ref='DESIGN.md 7 C05',
+      technique='Lean 4 proof (fold_preserves by induction over trees; refinement order for resolved trees) + optimizer correspondence',
+      text='Proved in Lean for all trees/environments/number types: fold_constants preserves the full result (value or error, any bindings, also the partially rewritten tree of a failed pass); optimize preserves it for trees without 3-argument if_then; '
+           'for resolved trees with the standard if_then a value before is the identical value after (optimize_preserves_value, incl. failed runs). The hypothesis is shown necessary by a counterexample. '
+           'Tie: optimized trees compared node for node with the crate; falsifier: execute before/after on the crate.',
+      note=TB + 'environment functions are Lean functions (history independent), exactly the property\'s proviso.'),
+ dict(property_id='C06', design_ref='DESIGN.md 7 C06',
+      technique='Lean 4 proof (decreasing measure; trace purity; stable-round lemma) + optimizer correspondence with a recording Environment',
+      text='Proved in Lean: optimize terminates within mu e + 1 rounds, performs only calls of functions reported pure for that arity with literal arguments and no lookup, is idempotent, leaves no constant-foldable node, never grows the tree. '
+           'Tie: the events optimize performs on a recording Environment, the result tree and re-optimisation compared with the crate; the falsifier inspects the real result for foldable nodes by the property\'s own definition.',
+      note=TB + 'wall-clock is observed (per-case timeout), not proved.'),
+ dict(property_id='C07', design_ref='DESIGN.md 7 C07',
+      technique='Lean 4 totality proofs (structural scanner; parser fuel 3n+1 sufficient, depth bounds) + crash-observing correspondence in child processes',
+      text='PARTIAL by nature: proved in Lean that scanner and parser models are total (never outOfFuel/panic: scan_total, parse_total), fuel linear in the token count suffices, recursion depth <= tokens+1 and <= 9(1+openers). '
+           'Rust stack frames and wall-clock cannot be expressed in Lean: every correspondence case runs in a worker process; a dead or hung worker is bisected to the killing input, which is then the replay. '
+           'Exhaustive fragment/token-kind scopes, truncations, mutations, nesting to 64, inputs to 4096 characters.',
+      note=TB + 'real stack depth / time are observed, not proved.'),
+ dict(property_id='C10', design_ref='DESIGN.md 7 C10',
+      technique='Lean 4 proof (validator soundness by induction, arity characterisation, error provenance) + validator correspondence',
+      text='Proved in Lean: an accepted tree never evaluates to UndefinedVariable or FunctionNotFound in a lawful environment (StaticEnvironment is lawful unless a native function itself returns FunctionNotFound - shown necessary), '
+           'function_exists <-> n in the registered arity range for all four arity kinds, a rejection names an offending node of the tree. Acceptance after optimize and parameter-count errors of builtins are covered by the opt and call streams (falsifier) - see level_note.',
+      note=TB + 'PARTIAL: "still accepted after optimize" and "no parameter-count error for documented kinds" are checked by differential streams/falsifier on this run, not yet by a theorem (planned: regenerated dispatch tables).'),
+ dict(property_id='C11', design_ref='DESIGN.md 7 C11',
+      technique='Lean 4 proof by induction using the Boolean-result lemmas of the interpreter model + validator correspondence',
+      text='Proved in Lean: if check_boolean_result accepts a tree and its result-position variables/calls yield Booleans, every successful evaluation yields a Boolean (bool_result), for all environments incl. undefined operands; '
+           'exact characterisation of accepted trees (accepts_iff) and the rejections incl. nested branches. Tie + falsifier: verdicts and results on the crate.',
+      note=TB),
+ dict(property_id='C13', design_ref='DESIGN.md 7 C13',
+      technique='Lean 4 proof (orientation for all values; transitivity on the Safe domain; sort/min/max laws; kernel-checked counterexamples) + ordering correspondence and law checking on the crate',
+      text='Proved in Lean for ALL values: a<b iff b>a, a<=b iff not a>b, = symmetric, compare in {-1,0,1} consistent, between, min/max members, sort a permutation. On Safe collections (no NaN, not both numeric strings and Numbers): '
+           'transitivity, total preorder, sort sorted/idempotent/unique stable permutation, min/max bound. Outside Safe the property is FALSE of the code: kernel-checked witnesses; recorded as known finding C13-unsafe-collection. '
+           'LawfulNum Float proved on bit patterns. Tie: cmp/operators/builtins vs model; falsifier: laws evaluated on the crate.',
+      note=TB + 'bit-pattern ordering of Num.lean tied to hardware comparison by the num/cmp streams; slice::sort stable (std).'),
+ dict(property_id='C19', design_ref='DESIGN.md 7 C19',
+      technique='Lean 4 refinement proof to an abstract map (induction over operation histories, any key-folding function) + exhaustive small histories and a Rust reference map',
+      text='Proved in Lean for every history and every fold function: all observations equal those of a map from folded names to the latest entry (env_refines), spelling irrelevance, remove returns stored, clear keeps functions, '
+           'namespaces disjoint, evaluation invariant under case changes of identifiers (eval_case_invariant). Tie: all histories <=3/<=4 over a 19-op alphabet with every lookup after every step + random long histories; falsifier: BTreeMap reference.',
+      note=TB + 'which non-ASCII spellings fold together is str::to_lowercase\'s business (tables from Rust std).'),
 ]
 _PENDING = 'not yet claimed: its model, theorems and streams are under construction in this framework (see DESIGN.md section 12, build order)'
 NOT_APPLICABLE = [dict(property_id=p, reason=_PENDING) for p in
-                  ['C01','C02','C05','C06','C07','C08','C09','C10','C11','C13','C14','C15','C16','C17','C18','C19']]
+                  ['C08','C09','C14','C15','C16','C17','C18']]
 NOTES = ('All checks share one engine: tools/check.py <id>. Replays: tools/check.py <id> --replay <file>. '
          'known_findings.json lists recorded defects (KNOWN-FINDING lines) and fixed ones.')
